@@ -1135,6 +1135,18 @@ def subscript(base, idx):
 
 def simplify_call(t):
     _, fn, args, kws = t
+    # numpy.full(shape, 0, dtype) is zeros(shape, dtype); full(shape, -1, dtype) is -ones(shape, dtype); full(shape, 1, ..) is ones
+    if fn == ('g', 'numpy.full') and not any(a[0] == 'star' for a in args):
+        kw = dict(kws)
+        shape = args[0] if args else kw.get('shape')
+        fill = args[1] if len(args) > 1 else kw.get('fill_value')
+        dt = args[2] if len(args) > 2 else kw.get('dtype')
+        if shape is not None and fill is not None and fill[0] == 'c' and fill[1] in (0, 1, -1) and not isinstance(fill[1], bool) \
+                and set(kw) <= {'shape', 'fill_value', 'dtype'}:
+            nk = (('dtype', dt),) if dt is not None else ()
+            nk = tuple(sorted(nk + (('shape', shape),)))
+            base = ('call', ('g', 'numpy.zeros' if fill[1] == 0 else 'numpy.ones'), (), nk)
+            return ('un', '-', base) if fill[1] == -1 else base
     # list(<generator>) is the list comprehension; tuple / sorted / set of a generator take a list comprehension
     if fn[0] == 'g' and fn[1] in ('builtins.list', 'builtins.tuple', 'builtins.sorted', 'builtins.set', 'builtins.frozenset') and \
             len(args) == 1 and not kws and args[0][0] == 'comp' and args[0][1] == 'gen':
